@@ -18,8 +18,19 @@
 //!            before that: the SYN's window), every emitted data segment has
 //!            seq + len - una <= W (retransmissions included: they start at or
 //!            after una);
-//! * WRITE    try_write returns WouldBlock iff Send-Q == send_buf_cap just
-//!            before the call, otherwise Ok(min(len, cap - Send-Q));
+//! * WRITE    with Send-Q = unsent + unacknowledged bytes of the socket just before the call:
+//!            safety (exact) -- try_write never returns Ok while Send-Q >= send_buf_cap and never
+//!            accepts more than min(len, send_buf_cap - Send-Q) bytes ("writes beyond the cap
+//!            block or return WouldBlock");
+//!            progress (only what no admission policy can excuse) -- the property promises that a
+//!            refused write is taken "until acknowledgements free space", NOT that a write is
+//!            taken as soon as ANY byte is free, nor how much of the free space one call uses
+//!            (low-water marks, all-or-nothing writes and short writes are all admissible).  So
+//!            WouldBlock (or Ok(0)) is a violation only when no acknowledgement can ever free
+//!            more space: Send-Q == 0 (nothing unsent, nothing unacknowledged), the write is
+//!            non-empty and the connection is open for writing (then try_write does not fail
+//!            with another error).  WouldBlock at 0 < Send-Q < cap is counted as a class, not
+//!            judged;
 //! * UDP      send_to with payload > mtu(or loopback_mtu) - ip_header - 8 fails
 //!            with raw OS error 90 and emits nothing; a payload <= limit
 //!            returns Ok(len) and exactly that payload appears on the wire
@@ -575,6 +586,8 @@ pub fn run(sc: &Scenario) -> Outcome {
     let mut udp_ok_sent: Vec<(usize, usize, bool)> = Vec::new(); // (host, len, lo)
     let mut udp_recvd = 0usize;
     let mut wouldblock = 0u64;
+    let mut wouldblock_below_cap = 0u64;
+    let mut short_writes = 0u64;
     let mut try_ok = 0u64;
     let mut udp_rejected = 0u64;
     for o in &log.obs {
@@ -584,10 +597,16 @@ pub fn run(sc: &Scenario) -> Outcome {
                 match res {
                     Err(e) if e.is("WouldBlock") => {
                         wouldblock += 1;
-                        if *q != cap {
+                        if *q < cap {
+                            wouldblock_below_cap += 1;
+                        }
+                        // progress: with an EMPTY send queue (nothing unsent, nothing unacknowledged)
+                        // no acknowledgement will ever free more space, so a non-empty write on a
+                        // connection that is open for writing must be taken (caps are >= 1)
+                        if *q == 0 && *len > 0 && cap > 0 {
                             out.fail(
-                                "write:WouldBlock-although-send-queue-below-cap",
-                                format!("round {}: try_write({len}) returned WouldBlock with Send-Q {q} < cap {cap}", o.round),
+                                "write:WouldBlock-although-send-queue-empty",
+                                format!("round {}: try_write({len}) returned WouldBlock with Send-Q 0 (nothing unsent, nothing unacknowledged: no ACK can free more space), cap {cap}", o.round),
                             );
                         }
                     }
@@ -598,11 +617,18 @@ pub fn run(sc: &Scenario) -> Outcome {
                                 "write:accepted-bytes-although-send-queue-at-cap",
                                 format!("round {}: try_write({len}) returned Ok({n}) with Send-Q {q} >= cap {cap}", o.round),
                             );
-                        } else if *n != (*len).min(cap - *q) {
+                        } else if *n > (*len).min(cap - *q) {
                             out.fail(
-                                "write:accepted-count-is-not-min(len,free-space)",
+                                "write:accepted-count-exceeds-min(len,free-space)",
                                 format!("round {}: try_write({len}) returned Ok({n}) with Send-Q {q}, cap {cap}", o.round),
                             );
+                        } else if *n == 0 && *q == 0 && *len > 0 {
+                            out.fail(
+                                "write:Ok(0)-although-send-queue-empty",
+                                format!("round {}: try_write({len}) returned Ok(0) with Send-Q 0, cap {cap}", o.round),
+                            );
+                        } else if *n < (*len).min(cap - *q) {
+                            short_writes += 1;
                         }
                     }
                     Err(_) => {}
@@ -756,6 +782,12 @@ pub fn run(sc: &Scenario) -> Outcome {
     }
     if wouldblock > 0 {
         out.label("try_write:WouldBlock");
+    }
+    if wouldblock_below_cap > 0 {
+        out.label("try_write:WouldBlock-with-send-queue-below-cap(not-judged)");
+    }
+    if short_writes > 0 {
+        out.label("try_write:Ok-with-less-than-the-free-space(not-judged)");
     }
     if try_ok > 0 {
         out.label("try_write:Ok");
@@ -1455,7 +1487,7 @@ fn check(tier: Tier, seed: u64) -> i32 {
             "loopback and own-address segments are folded back inside Kernel::egress and never reach the harness: on those paths only the cap and try_write clauses are checked, not MSS or window; such connections still share the host's socket table with the wire-visible ones",
             "the expected MSS of a wire segment is mtu - 20 (IPv4 source) or - 40 (IPv6 source) - 20, from the segment's own source address; if an extra IPv6 connection uses the external interface the generator raises an MTU <= 60 by 20 so that every connection has >= 1 byte of payload room",
             "una/W of the window clause are computed from segments already *delivered* to the sender (the harness is the wire); a FIN is not counted as a byte in flight",
-            "the try_write clause is evaluated only when the connection is visible in netstat just before the call (an aborted/closed socket is hidden) and the call did not fail for another reason",
+            "the try_write clause is evaluated only when the connection is visible in netstat just before the call (an aborted/closed socket is hidden) and the call did not fail for another reason (so the connection is open for writing). Safety is exact: no Ok while Send-Q >= send_buf_cap, never more than min(len, cap - Send-Q) bytes accepted. Progress is asserted only where no admission policy can excuse a refusal: WouldBlock (or Ok(0)) for a non-empty write while Send-Q is 0 -- nothing unsent and nothing unacknowledged, so no acknowledgement can ever free more space. The property says writes beyond the cap wait 'until acknowledgements free space'; it does not promise that a write is taken as soon as any byte is free, nor that one call fills all the free space, so WouldBlock at 0 < Send-Q < cap (write low-water mark) and short writes are counted as classes but not judged",
             "UDP datagrams are never dropped or delayed by this check; MTU payload room >= 1 byte, caps >= 1",
             "UDP-LIMITS phase: the limit of a datagram is that of the interface it leaves through, decided by its DESTINATION (127.0.0.0/8, ::1: loopback_mtu - ip header - 8; another host: mtu - ip header - 8), never by the address the sending socket happens to be bound to; for a datagram to the sender's own routable address the docs name neither MTU (turmoil uses mtu, Linux would route it over lo), so only 'accepted up to the smaller limit, rejected beyond the larger' is asserted there; both MTUs >= 48 so that the limit is >= 0 for both families; a loopback-bound sender only sends to loopback; source addresses are not judged here (C17), only the source port",
             "liveness is not judged here (C06); a stalled or aborted connection still has all monitors applied on every round",
